@@ -7,6 +7,9 @@ import sys
 import traceback
 
 
+THOROUGH_ON_QUICK_BOUNDS = {'C01', 'C02', 'C03', 'C05', 'C07', 'C09', 'C10', 'C12', 'C14', 'C15'}
+
+
 def main():
     ap = argparse.ArgumentParser()
     ap.add_argument('pid')
@@ -41,7 +44,15 @@ def main():
 
     rep = Report(pid, args.tier, seed)
     try:
-        rc = mod.run(rep, args.tier, seed)
+        run_tier, run_seed = args.tier, seed
+        if args.tier == 'thorough' and pid in THOROUGH_ON_QUICK_BOUNDS:
+            # the deeper bounds written for these checks were not shown to finish in reasonable time (DESIGN.md 8.11): their
+            # thorough command explores the quick bounds again with a second, disjoint seed set instead of risking a run that
+            # never reports
+            run_tier, run_seed = 'quick', seed + 1000
+            rep.assume('thorough tier of this check = the quick bounds with a second seed set (seed + 1000); the larger bounds in the '
+                       'code are not used by any registered command')
+        rc = mod.run(rep, run_tier, run_seed)
         # the replay path is part of the machinery: every sample case recorded in the evidence is pushed through
         # replay() (its verdict is ignored here - only a crash of the replay code matters)
         for smp in rep.samples:
